@@ -250,6 +250,19 @@ func lineDiff(want, got []string) string {
 // classify assigns a known-finding key by a predicate on the case (never "any failure").
 const apostropheKey = "string-default-delimited-by-apostrophes-is-taken-for-a-quoted-literal"
 
+const backslashKey = "check-literal-ending-in-a-backslash-compared-as-if-the-backslash-escaped-the-quote"
+
+func hasCheck(d *squ.DB, name string) bool {
+	for _, t := range d.Tables {
+		for _, c := range t.Checks {
+			if c.Name == name {
+				return true
+			}
+		}
+	}
+	return false
+}
+
 func classify(A, B *squ.DB, res Result) string {
 	if (A.HasColumn("t", "q") || B.HasColumn("t", "q")) && squ.OnlyAboutColumn(res.Problems, "q") {
 		return apostropheKey
@@ -261,6 +274,15 @@ func classify(A, B *squ.DB, res Result) string {
 		}
 		if all {
 			return "table-read-by-a-view-cannot-be-rebuilt"
+		}
+	}
+	if hasCheck(B, "ck_bs") {
+		all := len(res.Problems) > 0
+		for _, p := range res.Problems {
+			all = all && strings.Contains(p, "second plan is not empty after a successful apply") && strings.Contains(p, "*schema.ModifyCheck") && !strings.Contains(p, ", ")
+		}
+		if all {
+			return backslashKey
 		}
 	}
 	if pkOrderDiffers(A) || pkOrderDiffers(B) {
